@@ -1,17 +1,20 @@
 // C11 — state resolution is order-independent and yields well-formed state.
 // Instrumented build: Go map iteration order and set Slice() order inside the
 // library are explorer choices. Parts:
-//  (1) every presentation of the inputs (order of state sets, of events inside sets, of the auth list,
-//      duplicated auth entries; current and deprecated entry points) gives the same resolved ID set, which is well formed;
-//  (2) deviation-bounded DFS over map-iteration / Slice() orders inside the library;
-//  (3) topological orderings of all small labelled DAGs in all presentation orders.
+//
+//	(1) every presentation of the inputs (order of state sets, of events inside sets, of the auth list,
+//	    duplicated auth entries; current and deprecated entry points) gives the same resolved ID set, which is well formed;
+//	(2) deviation-bounded DFS over map-iteration / Slice() orders inside the library;
+//	(3) topological orderings of all small labelled DAGs in all presentation orders.
 package main
 
 import (
 	"encoding/json"
 	"fmt"
+	"math/bits"
 	"sort"
 	"strings"
+	"sync/atomic"
 	"time"
 
 	gmsl "github.com/matrix-org/gomatrixserverlib"
@@ -436,6 +439,127 @@ func checkDAG(r *harness.Run, c dagCase) error {
 	return nil
 }
 
+// ---------------------------------------------------------------- (4) the auth-chain / conflicted-subgraph walk
+
+type walkCase struct {
+	N          int
+	Edges      []int // bitmask per node: which earlier nodes it cites as auth events
+	RevRefs    bool  // auth events listed newest-first instead of oldest-first
+	Conflicted int   // bitmask of conflicted nodes
+	StateSet   []int // the state set, in presentation order
+}
+
+// checkWalk: the walk's two results are sets defined by the DAG alone - the full auth chain is every ancestor of the
+// state set, the conflicted subgraph (v2.1) every event on an auth path from a conflicted event of the state set to a
+// conflicted event - so they may not depend on the order of the state set or of the auth-event lists.
+func walkEvents(c walkCase) ([]gmsl.PDU, error) {
+	d := dagCase{N: c.N, Edges: c.Edges, Kind: 2}
+	evs, _, err := dagEvents(d)
+	if err != nil {
+		return nil, fmt.Errorf("harness: %v", err)
+	}
+	if c.RevRefs {
+		// rebuild with reversed auth lists
+		ver := gmsl.MustGetRoomVersion("1")
+		for i := range evs {
+			ids := evs[i].AuthEventIDs()
+			rev := make([]string, len(ids))
+			for k, id := range ids {
+				rev[len(ids)-1-k] = id
+			}
+			sk := fmt.Sprint(i)
+			typ, content := "x.state", `{"n":1}`
+			if i == 0 {
+				typ, sk, content = "m.room.create", "", `{"creator":"@a:a.org"}`
+			}
+			e := evgen.Ev{Type: typ, Sender: "@a:a.org", RoomID: "!r:a.org", StateKey: &sk, Content: content, Depth: int64(i + 1), TS: int64(100 + i), EventID: evs[i].EventID(), Auth: rev, Prev: []string{}}
+			p, err := ver.NewEventFromTrustedJSONWithEventID(evs[i].EventID(), e.JSON("1"), false)
+			if err != nil {
+				return nil, fmt.Errorf("harness: %v", err)
+			}
+			evs[i] = p
+		}
+	}
+	return evs, nil
+}
+
+func checkWalk(r *harness.Run, c walkCase) error {
+	evs, err := walkEvents(c)
+	if err != nil {
+		return err
+	}
+	return checkWalkOn(r, c, evs)
+}
+
+func checkWalkOn(r *harness.Run, c walkCase, evs []gmsl.PDU) error {
+	r.Eval()
+	var set, conf []gmsl.PDU
+	for _, i := range c.StateSet {
+		set = append(set, evs[i])
+	}
+	for i := 0; i < c.N; i++ {
+		if c.Conflicted&(1<<i) != 0 {
+			conf = append(conf, evs[i])
+		}
+	}
+	// reference: reachability over the edge masks
+	reach := make([]int, c.N) // reach[i] = bitmask of nodes reachable from i (including i)
+	for i := 0; i < c.N; i++ {
+		reach[i] = 1 << i
+		for j := 0; j < i; j++ {
+			if c.Edges[i]&(1<<j) != 0 {
+				reach[i] |= reach[j]
+			}
+		}
+	}
+	wantFull, wantSub := 0, 0
+	for _, i := range c.StateSet {
+		wantFull |= reach[i] &^ (1 << i)
+	}
+	for _, i := range c.StateSet {
+		// ancestors of other state-set members are in the chain even if they are state-set members themselves
+		_ = i
+	}
+	for _, o := range c.StateSet {
+		if c.Conflicted&(1<<o) == 0 {
+			continue
+		}
+		for x := 0; x < c.N; x++ {
+			if reach[o]&(1<<x) != 0 && reach[x]&c.Conflicted != 0 {
+				wantSub |= 1 << x
+			}
+		}
+	}
+	for _, algo := range []gmsl.StateResAlgorithm{gmsl.StateResV2, gmsl.StateResV2_1} {
+		var full, sub []string
+		if p, msg := harness.Try(func() { full, sub = gmsl.VerifConflictedSubgraph(algo, set, conf, evs) }); p {
+			return fmt.Errorf("auth-chain walk panics: %s", msg)
+		}
+		mask := func(ids []string) int {
+			m := 0
+			for _, id := range ids {
+				for i, e := range evs {
+					if e.EventID() == id {
+						m |= 1 << i
+					}
+				}
+			}
+			return m
+		}
+		if got := mask(full); got != wantFull {
+			return fmt.Errorf("algorithm %v: full auth chain of state set %v is %b, the ancestors are %b (edges %v)", algo, c.StateSet, got, wantFull, c.Edges)
+		}
+		want := wantSub
+		if algo == gmsl.StateResV2 {
+			want = 0
+		}
+		if got := mask(sub); got != want {
+			return fmt.Errorf("algorithm %v: conflicted subgraph for state set %v (conflicted %b, auth lists reversed=%v) is %b, the events on auth paths between conflicted events are %b (edges %v)", algo, c.StateSet, c.Conflicted, c.RevRefs, got, want, c.Edges)
+		}
+	}
+	return nil
+}
+
 func idsOf(l []gmsl.PDU) []string {
 	var o []string
 	for _, p := range l {
@@ -465,6 +589,13 @@ func run(r *harness.Run) {
 		var c dagCase
 		_ = json.Unmarshal(raw, &c)
 		return checkDAG(r, c)
+	})
+	r.OnReplay("walk", func(raw json.RawMessage) error {
+		var c walkCase
+		if err := json.Unmarshal(raw, &c); err != nil {
+			return err
+		}
+		return checkWalk(r, c)
 	})
 	if r.Replaying() {
 		return
@@ -601,6 +732,85 @@ func run(r *harness.Run) {
 			}
 		}
 	})
+	// (4) the auth-chain / conflicted-subgraph walk on every small DAG
+	WN := r.Pick(5, 6)
+	var walkDags []dagCase
+	for n := 2; n <= WN; n++ {
+		nEdges := n * (n - 1) / 2
+		for mask := 0; mask < 1<<nEdges; mask++ {
+			edges := make([]int, n)
+			bit := 0
+			for i := 0; i < n; i++ {
+				for j := 0; j < i; j++ {
+					if mask&(1<<bit) != 0 {
+						edges[i] |= 1 << j
+					}
+					bit++
+				}
+			}
+			walkDags = append(walkDags, dagCase{N: n, Edges: edges})
+		}
+	}
+	var walks atomic.Int64
+	r.Parallel(len(walkDags), func(i int) {
+		d := walkDags[i]
+		prebuilt := map[bool][]gmsl.PDU{}
+		for _, rv := range []bool{false, true} {
+			evs, err := walkEvents(walkCase{N: d.N, Edges: d.Edges, RevRefs: rv})
+			if err != nil {
+				panic(err)
+			}
+			prebuilt[rv] = evs
+		}
+		for conf := 1; conf < 1<<d.N; conf++ {
+			if bits.OnesCount(uint(conf)) < 2 {
+				continue
+			}
+			// the state set: the conflicted events plus every event nothing else cites (the tips)
+			cited := 0
+			for _, e := range d.Edges {
+				cited |= e
+			}
+			var set []int
+			for k := 0; k < d.N; k++ {
+				if conf&(1<<k) != 0 || cited&(1<<k) == 0 {
+					set = append(set, k)
+				}
+			}
+			perms := explore.Perms(len(set))
+			if len(set) > 4 {
+				perms = perms[:0]
+				id := make([]int, len(set))
+				for k := range id {
+					id[k] = k
+				}
+				perms = append(perms, id)
+				rev := make([]int, len(set))
+				for k := range rev {
+					rev[k] = len(set) - 1 - k
+				}
+				perms = append(perms, rev)
+				for rot := 1; rot < len(set); rot++ {
+					p := make([]int, len(set))
+					for k := range p {
+						p[k] = (k + rot) % len(set)
+					}
+					perms = append(perms, p)
+				}
+			}
+			for _, pm := range perms {
+				for _, revRefs := range []bool{false, true} {
+					c := walkCase{N: d.N, Edges: d.Edges, RevRefs: revRefs, Conflicted: conf, StateSet: permute(set, pm)}
+					walks.Add(1)
+					if err := checkWalkOn(r, c, prebuilt[revRefs]); err != nil {
+						r.Violation(fmt.Sprintf("walk:n=%d:edges=%v conf=%b set=%v rev=%v", d.N, d.Edges, conf, c.StateSet, revRefs), err.Error(), "walk", c)
+						return
+					}
+				}
+			}
+		}
+	})
+	r.Count("subgraph_walks", walks.Load())
 	r.Count("dags", int64(len(dags)))
 	r.Sample("dag", dagCase{N: 4, Edges: []int{0, 1, 1, 6}, TS: 2, ID: 1, Perm: []int{3, 1, 0, 2}, Kind: 2, Dup: -1})
 	r.Sample("presentation", scs[len(scs)-1])
